@@ -1,22 +1,22 @@
-(* Operation table: each op parses its arguments, runs extracted model functions, prints. *)
-open Model
+(* JPEG 2000 building blocks: RCT, DWT, ... *)
+open BinNums
 open Conv
 
-let triple_list_to_string (l : ((z * z) * z) list) : string =
-  String.concat ";" (List.map (fun ((a, b), c) ->
+let triple_list_to_string (l : ((coq_Z * coq_Z) * coq_Z) list) : string =
+  String.concat ";" (L.map (fun ((a, b), c) ->
     Printf.sprintf "%d,%d,%d" (int_of_z a) (int_of_z b) (int_of_z c)) l)
 
 let register (reg : string -> (string list -> string) -> unit) : unit =
-  reg "ping" (fun _ -> "pong");
-  (* rct_fwd r g b (lists) -> y,cb,cr;... *)
   reg "rct_fwd" (fun a -> match a with
-    | [r; g; b] -> triple_list_to_string (rct_fwd_list (zlist_of_string r) (zlist_of_string g) (zlist_of_string b))
+    | [r; g; b] -> triple_list_to_string (RCT.rct_fwd_list (zlist_of_string r) (zlist_of_string g) (zlist_of_string b))
     | _ -> "?");
   reg "rct_inv" (fun a -> match a with
     | [y; cb; cr] ->
       let ys = zlist_of_string y and cbs = zlist_of_string cb and crs = zlist_of_string cr in
       let rec zip3 a b c = match a, b, c with
         | x :: a', y :: b', z :: c' -> ((x, y), z) :: zip3 a' b' c' | _ -> [] in
-      triple_list_to_string (rct_inv_list (zip3 ys cbs crs))
+      triple_list_to_string (RCT.rct_inv_list (zip3 ys cbs crs))
     | _ -> "?");
   ()
+
+let () = registrars := register :: !registrars
